@@ -58,7 +58,7 @@ def showAtoms (l : List Atom) : String :=
 structure DState where
   k : Kind
   n : Net
-  st : HState
+  st : RState
 
 def natArg (ws : List String) (k : String) : Option Nat := (kv ws k).bind (·.toNat?)
 def resArg (ws : List String) (k : String) : Option FetchRes := (kv ws k).bind parseRes
